@@ -72,6 +72,16 @@ func (h *hashRanges) addElement(elHash uint64) {
 	}
 }
 
+// updateElement marks the bottom range holding an already indexed element as
+// dirty without changing any element count
+func (h *hashRanges) updateElement(elHash uint64) {
+	rng := h.topRange
+	for rng.isDivided {
+		rng = h.getBottomRange(rng, elHash)
+	}
+	h.dirty[rng] = struct{}{}
+}
+
 func (h *hashRanges) removeElement(elHash uint64) {
 	rng := h.topRange
 	rng.elements--
